@@ -723,3 +723,115 @@ Proof.
   - destruct R.
   - apply (open_walk_err s sv vi (w ++ [cl]) flag perm SlLstat e); assumption.
 Qed.
+
+(* ---- Rename of a file or symbolic link to a name that does not exist (same or another directory) ----------------- *)
+(* write and search permission on both directories; the sticky rule is a listed deviation *)
+Lemma aremove_aset_comm (V : Type) (a b : str) (x : V) (m : list (str * V)) :
+  a <> b -> aremove str_eqb a (aset str_eqb b x m) = aset str_eqb b x (aremove str_eqb a m).
+Proof.
+  intros Hne. induction m as [|[k v] m IH]; cbn [aset aremove].
+  - destruct (str_eqb_spec a b); [contradiction|reflexivity].
+  - destruct (str_eqb_spec b k) as [<-|Hbk].
+    + cbn [aremove]. destruct (str_eqb_spec a b); [contradiction|]. cbn [aset]. rewrite str_eqb_refl. reflexivity.
+    + cbn [aremove]. destruct (str_eqb_spec a k) as [<-|Hak].
+      * exact IH.
+      * cbn [aset]. destruct (str_eqb_spec b k); [contradiction|]. rewrite IH. reflexivity.
+Qed.
+
+Lemma upd_upd (h : heap) (i : nat) (x y : node) : upd (upd h i x) i y = upd h i y.
+Proof. revert i. induction h as [|z h IH]; intros [|i]; cbn [upd]; try reflexivity. rewrite IH. reflexivity. Qed.
+
+Lemma upd_comm (h : heap) (i j : nat) (x y : node) : i <> j -> upd (upd h i x) j y = upd (upd h j y) i x.
+Proof.
+  revert i j. induction h as [|z h IH]; intros [|i] [|j] Hne; cbn [upd]; try reflexivity; [congruence|].
+  rewrite IH by congruence. reflexivity.
+Qed.
+
+Lemma abs_path_inj (a b : list str) : Forall comp_ok a -> Forall comp_ok b -> abs_path a = abs_path b -> a = b.
+Proof. intros Ha Hb E. apply (f_equal kcomps) in E. rewrite !kcomps_abs_path in E; assumption. Qed.
+
+(* moving an entry to a name that is free: the two orders of the two directory updates give the same heap *)
+Lemma move_comm (h : heap) (op np oc : nat) (on nn : str) :
+  node_is_dir h op = true -> node_is_dir h np = true -> (op = np -> on <> nn) ->
+  remove_child (add_child h np nn oc) op on = add_child (remove_child h op on) np nn oc.
+Proof.
+  intros Ho Hn Hne. destruct (node_is_dir_get _ _ Ho) as (cho & mo & Hgo). destruct (node_is_dir_get _ _ Hn) as (chn & mn & Hgn).
+  destruct (Nat.eq_dec op np) as [->|Hd].
+  - assert (cho = chn /\ mo = mn) as (-> & ->) by (split; congruence).
+    unfold add_child, remove_child. rewrite Hgn.
+    rewrite !wget_upd_same by (exact (wget_lt _ _ _ Hgn)). rewrite !upd_upd.
+    rewrite (aremove_aset_comm nat on nn oc chn (Hne eq_refl)). reflexivity.
+  - unfold add_child, remove_child. rewrite Hgn, Hgo.
+    rewrite (wget_upd_other _ _ _ _ (not_eq_sym Hd)), Hgo. rewrite (wget_upd_other _ _ _ _ Hd), Hgn.
+    apply upd_comm. congruence.
+Qed.
+
+Definition source_not_dir (s : fsys) (sv : sview) (cs : list str) : Prop :=
+  forall par kind name n, klookup s sv false false (abs_path cs) = WNode par kind name n -> node_is_dir (f_heap s) n = false.
+Definition dest_absent (s : fsys) (sv : sview) (cs : list str) : Prop :=
+  forall par kind name n, klookup s sv false false (abs_path cs) <> WNode par kind name n.
+(* source missing AND destination path refused: the two sides report different errors (errno priority, listed) *)
+Definition rename_one_error (s : fsys) (sv : sview) (co cn : list str) : Prop :=
+  forall par name md e, klookup s sv false false (abs_path co) = WNeg par name md ->
+                        klookup s sv false false (abs_path cn) <> WErr e.
+
+Theorem dstep_rename_file_new (s : fsys) (sv : sview) (wo : list str) (clo : str) (w : list str) (cl : str) :
+  dac_hyps s sv -> path_ok s sv SlLstat (wo ++ [clo]) -> path_ok s sv SlLstat (w ++ [cl]) ->
+  source_not_dir s sv (wo ++ [clo]) -> dest_absent s sv (w ++ [cl]) -> rename_one_error s sv (wo ++ [clo]) (w ++ [cl]) ->
+  no_sticky_refusal s sv (wo ++ [clo]) ->
+  let o := abs_path (wo ++ [clo]) in
+  let p := abs_path (w ++ [cl]) in
+  (fst (rename s (sv_view sv) o p), proj_res Linux (snd (rename s (sv_view sv) o p))) = go_rename s sv o p.
+Proof.
+  intros H Hpo Hp Hnd Hab Hone Hst o p.
+  pose proof (dresolve s sv SlLstat (wo ++ [clo]) H Hpo) as Ro. pose proof (dresolve s sv SlLstat (w ++ [cl]) H Hp) as R.
+  destruct Hpo as (Hgo & Hko1 & _ & Hnfo). destruct Hp as (Hg & Hk1 & _ & Hnf).
+  change (follow_of SlLstat) with false in Ro, R, Hk1, Hko1. change (precise_of SlLstat) with true in Ro, R.
+  destruct (klookup_pm s sv false wo clo Hgo Hko1) as (Hokn & Hokg & Hopm).
+  destruct (klookup_pm s sv false w cl Hg Hk1) as (Hkn & Hkg & Hpm).
+  pose proof (klookup_final s sv false (wo ++ [clo]) Hgo) as Hofin.
+  pose proof (klookup_final s sv false (w ++ [cl]) Hg) as Hfin.
+  unfold o, p, rename, go_rename, k_stat, k_rename, win. rewrite (dh_os _ _ H). cbn [ostype_eqb]. rewrite Hopm, Hpm.
+  set (ro := search_node s (sv_view sv) (abs_path (wo ++ [clo])) SlLstat) in *.
+  set (rn := search_node s (sv_view sv) (abs_path (w ++ [cl])) SlLstat) in *.
+  unfold source_not_dir in Hnd. unfold dest_absent in Hab. unfold rename_one_error in Hone. unfold no_sticky_refusal in Hst.
+  destruct (klookup s sv false false (abs_path (w ++ [cl]))) as [par kind name n|par name md| |e] eqn:HK; cbn [walk_rel] in R;
+    [exfalso; exact (Hab _ _ _ _ eq_refl)| |destruct R|].
+  - (* the destination's directory is found, the destination does not exist *)
+    pose proof (Hkg _ _ _ eq_refl) as ->. destruct Hfin as (F1 & F2 & F3). destruct R as (R1 & R2 & R3 & R4).
+    destruct (at_name_views _ _ _ _ _ _ (R4 eq_refl)) as (V1 & V2 & dn & V3 & V4 & V5).
+    destruct (klookup s sv false false (abs_path (wo ++ [clo]))) as [op okind oname oc|op oname omd| |e] eqn:HKo; cbn [walk_rel] in Ro.
+    + destruct (Hokn _ _ _ _ eq_refl) as (-> & ->). destruct Hofin as (G1 & G2 & G3).
+      destruct Ro as (O1 & O2 & O3 & _ & _ & O4). destruct (O4 eq_refl) as (O5 & O6).
+      destruct (at_name_views _ _ _ _ _ _ (O6 eq_refl)) as (W1 & W2 & do & W3 & W4 & W5).
+      specialize (Hnd _ _ _ _ eq_refl). specialize (Hst _ _ _ _ eq_refl).
+      assert (Hsame : str_eqb (pi_path (sr_pi ro)) (pi_path (sr_pi rn)) = false).
+      { apply str_eqb_neq. rewrite W3, V3. intros E. apply abs_path_inj in E; [|apply Forall_comp_ok_of; assumption..].
+        apply app_inj_tail in E as (-> & ->). rewrite W4 in V4. injection V4 as ->. congruence. }
+      rewrite O1, R1, V2, O5, O2, R3, R2, V1, W1, Hsame. cbn [is_file_exists is_not_exist negb andb orb].
+      rewrite (perm_on_write_searchable _ _ _ G3), (perm_on_write_searchable _ _ _ F3).
+      rewrite G1, F1, Hnd, (may_delete_nosticky _ _ _ _ _ Hst), Hnd. cbn [negb andb orb].
+      destruct (kperm (f_heap s) op 3 (v_user (sv_view sv))) eqn:Hpo; cbn [negb]; [|reflexivity].
+      destruct (Nat.eqb_spec par op) as [->|Hne]; cbn [negb andb].
+      * rewrite Hpo. cbn [negb].
+        destruct (get (f_heap s) oc) as [[ch m|dt k i m|t m]|] eqn:Hgoc; [unfold node_is_dir in Hnd; rewrite Hgoc in Hnd; discriminate| | |congruence];
+          cbn [negb andb fst snd proj_res]; rewrite (move_comm _ _ _ _ _ _ G2 F2) by (intros _ ->; congruence); reflexivity.
+      * destruct (kperm (f_heap s) par 3 (v_user (sv_view sv))); cbn [negb]; [|reflexivity].
+        destruct (get (f_heap s) oc) as [[ch m|dt k i m|t m]|] eqn:Hgoc; [unfold node_is_dir in Hnd; rewrite Hgoc in Hnd; discriminate| | |congruence];
+          cbn [negb andb fst snd proj_res]; rewrite (move_comm _ _ _ _ _ _ G2 F2) by (intros E; congruence); reflexivity.
+    + destruct Ro as (O1 & _). pose proof (Hokg _ _ _ eq_refl) as ->. destruct Hofin as (G1 & _).
+      rewrite O1, G1. reflexivity.
+    + destruct Ro.
+    + destruct Ro as (O1 & _). destruct (werr_cases _ _ O1 Hnfo) as (Hc & ->).
+      destruct Hc as [Hc|[Hc|[Hc|Hc]]]; rewrite Hc; reflexivity.
+  - (* the walk to the destination is refused *)
+    destruct R as (R1 & R2). destruct (werr_cases _ _ R1 Hnf) as (Hc & ->).
+    destruct (klookup s sv false false (abs_path (wo ++ [clo]))) as [op okind oname oc|op oname omd| |eo] eqn:HKo; cbn [walk_rel] in Ro.
+    + destruct Ro as (O1 & _). rewrite O1. cbn [is_file_exists negb].
+      destruct Hc as [Hc|[Hc|[Hc|Hc]]]; rewrite Hc in *; try reflexivity.
+      rewrite (R2 eq_refl eq_refl). reflexivity.
+    + exfalso. exact (Hone _ _ _ _ eq_refl eq_refl).
+    + destruct Ro.
+    + destruct Ro as (O1 & _). destruct (werr_cases _ _ O1 Hnfo) as (Hco & ->).
+      destruct Hco as [Hco|[Hco|[Hco|Hco]]]; rewrite Hco; reflexivity.
+Qed.
